@@ -204,7 +204,7 @@ def _rp_nested(place, val, shadow, lib):
 # a place-holder may be used more than once in a value, and two place-holders of one value may lead to the same entry
 TEMPLATES_REPEATED = {"Tabulation": "${V}", "Pair": "as.buck ${V} ${V} 3.0 >=${V} as.constant ${V}", "Potential-Form": "A*r + ${V}*${V}", "EAM-Embed": "as.polynomial ${V} ${V}",
                       "EAM-Density": "as.polynomial ${V} 2 ${V}", "Species": "${V}", "Table-Form:tab": "0 ${V} 1 ${V} 2 3 3 4"}
-REPEAT_KINDS = ["variable", "variable-of-variable", "cross-section", "cross-section-of-variable", "diamond"]
+REPEAT_KINDS = ["variable", "variable-of-variable", "cross-section", "cross-section-of-variable", "diamond", "section-then-same-name", "same-name-then-section"]
 
 
 def _repeated(sec, key, num, kind):
@@ -223,20 +223,31 @@ def _repeated(sec, key, num, kind):
     tmpl["Orphan"]["my value"] = "${base_value}"
     subst["Orphan"]["my value"] = num
     ph = "${Orphan:my value}"
+  elif kind in ("section-then-same-name", "same-name-then-section"):
+    # a variable called like an entry of another section: ${Orphan:my_variable} and ${my_variable} side by side are two different things
+    variables = [("my_variable", num)]
+    tmpl["Orphan"]["my_variable"] = subst["Orphan"]["my_variable"] = "7.25"
+    ph = None
+    alts = [("${Orphan:my_variable}", "7.25"), ("${my_variable}", num)]
+    if kind == "same-name-then-section":
+      alts.reverse()
   else:
     # two different place-holders of one value that both lead to the same third entry
     variables = [("base_value", num), ("left", "${base_value}"), ("right", "${base_value}")]
     ph = None
+    alts = [("${left}", num), ("${right}", num)]
   t = TEMPLATES_REPEATED[sec]
   if ph is None:
     parts = t.split("${V}")
-    t2 = parts[0]
+    t2 = t3 = parts[0]
     for i, p_ in enumerate(parts[1:]):
-      t2 += ("${left}" if i % 2 == 0 else "${right}") + p_
+      t2 += alts[i % 2][0] + p_
+      t3 += alts[i % 2][1] + p_
     tmpl[sec][key] = t2
+    subst[sec][key] = t3
   else:
     tmpl[sec][key] = t.replace("${V}", ph)
-  subst[sec][key] = t.replace("${V}", num)
+    subst[sec][key] = t.replace("${V}", num)
   if variables:
     tmpl = with_vars(tmpl, variables)
     subst = with_vars(subst, [(n, num) for n, _ in variables])
@@ -245,7 +256,7 @@ def _repeated(sec, key, num, kind):
 
 def repeated_placeholder(place: int, val: int, kind: int) -> bool:
   """
-  pre: 0 <= place < 7 and 0 <= val < 4 and 0 <= kind < 5
+  pre: 0 <= place < 7 and 0 <= val < 4 and 0 <= kind < 7
   post: _
   """
   sec, key = PLACES[place]
